@@ -12,10 +12,12 @@ import math
 import numpy as np
 
 from mc import schemas as S
-from mc.common2d import Reg, SignedSlice, std_pairings, subtotal
+from cr.cube.cube import Cube
+
+from mc.common2d import Reg, SignedSlice, reverse_read, std_pairings, subtotal, transforms_for
 from mc.compare import arr_bytes, first_diff
 from mc.engine import Res, digest, viol
-from mc.model import Schema
+from mc.model import Schema, tabulate
 
 ID = "C11"
 CHUNK = 100
@@ -114,9 +116,12 @@ def check(space, state):
     outs = []
     nontrivial = False
 
+    expd = {}
+
     def cmp(name, obs, exp):
         nonlocal asserted
         asserted += 1
+        expd[name.replace("strand.", "")] = exp
         d = first_diff(obs, exp)
         if d is not None:
             V.append(viol(name, "%s cell %s: library %r, respondent-level value %r" % (name, d[0], d[1], d[2]),
@@ -129,7 +134,8 @@ def check(space, state):
         if a.size and np.nanmin(np.where(np.isnan(a), 0, a)) < 0:
             V.append(viol(name + ":negative", "%s has a negative value" % name, output=name))
 
-    for part, (kind, _lbl, orc) in zip(cube.partitions, oracles):
+    fresh = Cube(tabulate(sch, data), transforms=transforms_for(cfg)).partitions
+    for pidx, (part, (kind, _lbl, orc)) in enumerate(zip(cube.partitions, oracles)):
         if kind == "strand":
             rows = orc.rows
             from mc.common2d import resolve_insertions
@@ -157,6 +163,8 @@ def check(space, state):
             nonneg("strand.table_proportion_stderrs", part.table_proportion_stderrs)
             outs.append(arr_bytes(part.table_proportion_stddevs))
             nontrivial = nontrivial or any(v == v and v > 0 for v in var)
+            asserted += reverse_read(V, fresh[pidx], expd, ":strand")
+            expd.clear()
             continue
         ss = SignedSlice(orc, cfg)
         ro, co = ss.display(part)
@@ -175,4 +183,6 @@ def check(space, state):
             nontrivial = nontrivial or any(v == v and v > 0 for row in var for v in row)
         outs.append(arr_bytes(part.row_proportion_variances, part.column_proportion_variances,
                               part.table_proportion_variances))
+        asserted += reverse_read(V, fresh[pidx], expd)
+        expd.clear()
     return Res(V, nontrivial, digest(space, state[1], *outs), asserted)
